@@ -71,7 +71,7 @@ pub fn c08(ctx: &mut Ctx) {
     p.w_reads = 6;
     p.invalid_pct = 15;
     let (lo, hi) = ctx.tier.pick((30, 120), (30, 200));
-    let cases = ctx.tier.pick(3000, 60_000);
+    let cases = ctx.tier.pick(30_000, 300_000);
     let strat = move || vgen::history(&p, lo, hi);
     let opts = HistOpts::default();
     let test = move |steps: &Vec<Step>| -> CaseResult {
@@ -109,7 +109,7 @@ pub fn c09(ctx: &mut Ctx) {
     p.w_reads = 25;
     p.w_remove = 8;
     let (lo, hi) = ctx.tier.pick((30, 100), (30, 200));
-    let cases = ctx.tier.pick(3000, 60_000);
+    let cases = ctx.tier.pick(30_000, 300_000);
     let strat = move || vgen::history(&p, lo, hi);
     let opts = HistOpts::default();
     let test = move |steps: &Vec<Step>| -> CaseResult {
@@ -154,7 +154,7 @@ pub fn c10(ctx: &mut Ctx) {
     p.empty_alias = true;
     p.alias_on_edge = true;
     let (lo, hi) = ctx.tier.pick((20, 80), (20, 160));
-    let cases = ctx.tier.pick(3000, 60_000);
+    let cases = ctx.tier.pick(30_000, 300_000);
     let strat = move || vgen::history(&p, lo, hi);
     let opts = HistOpts::default();
     let test = move |steps: &Vec<Step>| -> CaseResult {
@@ -192,7 +192,7 @@ pub fn c11(ctx: &mut Ctx) {
     p.w_reads = 8;
     p.w_tx = 8;
     let (lo, hi) = ctx.tier.pick((30, 90), (30, 160));
-    let cases = ctx.tier.pick(3000, 50_000);
+    let cases = ctx.tier.pick(24_000, 200_000);
     let strat = move || vgen::history(&p, lo, hi);
     let opts = HistOpts::default();
     let test = move |steps: &Vec<Step>| -> CaseResult {
